@@ -71,6 +71,7 @@ def wstep (s : WSt) (op : String) (args : List String) : WSt × String :=
       let dg := rest.drop (n * d + n)
       ({ n := n, d := d, pts := xs.toArray, labels := labs.toArray, diag := dg.toArray, w := none, size := 0 }, "ok")
     | _ => (s, "bad-op")
+  | "wgauss", _ => (s, "R=ok")     -- oracle-only op (GaussianKernelMatrix is not modelled)
   | "wmk", ty :: rest =>
     match rest.mapM String.toNat? with
     | none => (s, "bad-op")
